@@ -159,6 +159,16 @@ def _propagated(owner: Frame, name: str):
         if isinstance(v, ast.Attribute) and isinstance(x, ast.Name) and \
                 x.id == func.self_name and ast.unparse(v) not in attrs:
             return v, owner
+        # flag = bool(self.attr): as far as truth tests go, the attribute
+        if isinstance(v, ast.Call) and isinstance(v.func, ast.Name) and \
+                v.func.id == 'bool' and len(v.args) == 1 and \
+                isinstance(v.args[0], ast.Attribute):
+            y = v.args[0]
+            while isinstance(y, ast.Attribute):
+                y = y.value
+            if isinstance(y, ast.Name) and y.id == func.self_name and \
+                    ast.unparse(v.args[0]) not in attrs:
+                return v.args[0], owner
     return None
 
 
@@ -618,6 +628,13 @@ class Facts:
                 out = st
                 for t in a.targets:
                     out = self._assign(out, t, a.value, fr)
+                nc = n.extra.get('null_class')
+                if nc is not None and isinstance(a.targets[0], ast.Name):
+                    tp = path_of(a.targets[0], fr)
+                    if tp:
+                        out = out | frozenset([(nc == 'N', tp + ' is None')])
+                        if nc == 'O':
+                            pass
                 return {None: out, 'exc': st}
             if isinstance(a, ast.AnnAssign):
                 return {None: self._assign(st, a.target, a.value, fr),
